@@ -282,10 +282,10 @@ def run(ctx, rep):
     def step(ms, pi, qi, learn):
         le1 = ms
         n = P.gnode(pi)
-        if n in mut_set and not cmatch(g.term(n), r"IndexMut<I>>::index_mut$"):
+        if n in mut_set and not cmatch(g.term(n), r"IndexMut<I>>::index_mut$|slice::<impl \[T\]>::(first_mut|last_mut|get_mut|iter_mut)$|ops::DerefMut>?::deref_mut$|Vec::<T, A>::(as_mut_slice|iter_mut)$"):
             le1 = False
         for o, v in norm_learn(learn):
-            if c04.len_le1_fact(g, o, v):
+            if c04.len_le1_fact(g, o, v) or c04.files_empty_fact(g, origin_call(o), v):
                 le1 = True
         return le1
     seen = run_monitor(P, False, step)
@@ -293,7 +293,7 @@ def run(ctx, rep):
         bad = next(((pi, ms) for (pi, ms) in seen if P.gnode(pi) == n and not ms), None)
         for si, s in assigns_field(g, n, "last_evictable"):
             v = strip_ids(g.prov_rvalue(g.inst(n), s["rv"], None))
-            v_ok = is_field(v, "prev_last_log_id") and is_index(v[1], c04.FILES, 0)
+            v_ok = is_field(v, "prev_last_log_id") and (is_index(v[1], c04.FILES, 0) or c04._is_first(v[1]))
             if bad:
                 rep.violation("R07.2", "worker|boundary-before-older-files-synced", "last_evictable :=",
                               "the eviction boundary can be advanced while an older chunk file is still listed as unsynced: payloads whose only "
@@ -328,7 +328,7 @@ def run(ctx, rep):
         n = P.gnode(pi)
         if n in push_set:
             synced, fresh = False, False
-        if n in mut_set and not cmatch(g.term(n), r"IndexMut<I>>::index_mut$"):
+        if n in mut_set and not cmatch(g.term(n), r"IndexMut<I>>::index_mut$|slice::<impl \[T\]>::(first_mut|last_mut|get_mut|iter_mut)$|ops::DerefMut>?::deref_mut$|Vec::<T, A>::(as_mut_slice|iter_mut)$"):
             le1 = False
         if n in wset_:
             fresh = True
@@ -336,6 +336,8 @@ def run(ctx, rep):
             if c04.len_le1_fact(g, o, v):
                 le1 = True
             cn = origin_call(o)
+            if c04.files_empty_fact(g, cn, v):
+                le1, synced, fresh = True, True, True        # no file is listed: there is no boundary to install
             if cn in sync_set and v in OKV and (c04.is_sync_of_last(g, cn) or (c04.is_sync_of_index(g, cn, 0) and le1)):
                 synced = True
         return (synced, fresh, le1)
